@@ -143,6 +143,11 @@ loop:
 				a.last = c
 				break loop
 			}
+			// An entry name is a single path component. Anything else would be
+			// created outside of the directory it's listed in.
+			if d.Name == "" || d.Name == "." || d.Name == ".." || strings.ContainsRune(d.Name, '/') {
+				return nil, InvalidFormat{fmt.Sprintf("invalid entry name '%s'", d.Name)}
+			}
 			name = d.Name
 		case FormatGoodbye: // This will effectively be a "cd .."
 			if entry != nil {
